@@ -266,12 +266,15 @@ impl<S: AfcState> Client<S> {
                 .ok_or(HeaderError::InvalidSize)?;
             let DataHeader { seq, .. } = DataHeader::try_parse(header)?;
 
+            // Missing an authentication tag, so by definition
+            // we cannot authenticate the ciphertext.
+            let tag_idx = rest
+                .len()
+                .checked_sub(Self::TAG_SIZE)
+                .ok_or(Error::Authentication)?;
             #[allow(clippy::incompatible_msrv)] // clippy#12280
             let (ciphertext, tag) = rest
-                .split_at_mut_checked(rest.len() - Self::TAG_SIZE)
-                // Missing an authentication tag, so by
-                // definition we cannot authenticate the
-                // ciphertext.
+                .split_at_mut_checked(tag_idx)
                 .ok_or(Error::Authentication)?;
             (seq, ciphertext, tag)
         };
